@@ -12,7 +12,7 @@ export GOCACHE="${GOCACHE:-$BUILD/gocache}"
 mkdir -p "$BUILD"
 sed "s#=> /repo#=> $REPO#" "$ROOT/harness/go.mod" > "$BUILD/harness-race.mod"
 [ -f "$ROOT/harness/go.sum" ] && cp "$ROOT/harness/go.sum" "$BUILD/harness-race.sum"
-( cd "$ROOT/harness" && go build -race -modfile "$BUILD/harness-race.mod" -tags verif -o "$BUILD/vh-race" . ) || { echo "race build of the harness failed"; exit 2; }
+( cd "$ROOT/harness" && go build -race -modfile "$BUILD/harness-race.mod" -tags "${VERIF_HARNESS_TAGS:-verif}" -o "$BUILD/vh-race" . ) || { echo "race build of the harness failed"; exit 2; }
 exec python3 - "$ROOT" "$BUILD" <<'PY'
 import os, subprocess, sys
 root, build = sys.argv[1], sys.argv[2]
